@@ -31,9 +31,11 @@ META = {
         "valid documents: harness/mutate.py DOCS (18 pool instances) serialised concretely through the seam",
         "fault kinds: delete / duplicate / retag / swap-with-sibling / inject child / corrupt text / corrupt attribute / delete attribute / unknown attribute / bad xsi:type / bad xsi:nil / bad QName text / SyntaxError from the handler; "
         "target node and replacement name are selectors over the whole stream, corrupt values are symbolic strings of <= 1 (quick) / 2 (thorough) code points over ASCII + U+00E9, U+0663, U+2000",
+        "text level, through the real lxml / expat front ends (harness/textpath.py): truncation at EVERY byte offset of a pool document, every byte replaced by each of 8 bytes (< & NUL 0xFF \" > x space), 9 kinds of junk after the root "
+        "element; both handlers: instance or documented error, and the native handler must not return an instance when expat, driven directly, calls the bytes not well-formed",
         "dictionaries: drop / rename / duplicate-as-list / scalar<->list<->object swaps / wrong nesting on every key path (selectors), symbolic scalar replacement",
     ],
-    "outside": ["byte-level faults (truncation, byte flips) and 'the native handler rejects every ill-formed document': expat's behaviour behind the seam",
+    "outside": ["random byte strings; multi-point faults; the text-level drivers execute the C parsers (nothing about them is modelled, the solver enumerates offsets)",
                 "termination is implied by path exhaustion under the per-path timeout only"],
     "stubs": ["SAX seam", "CrossHair model pack", "XmlContext.get_subclasses(object) iterates the model pool"],
     "assumptions": [],
@@ -269,8 +271,60 @@ def explain_fault(e, r, txt):
     return {"doc": _DOC, "kind": KIND, "applied": ok, "node": mutate.nodes(mutate.tree_for(_OBJ))[e].qname, "name": NAMES[r], "xsi_type": XSI_TYPES[r], "value": txt}
 
 
+# ---------------------------------------------------------------------------------------------------------------------
+# text-level faults through the REAL front ends (harness/textpath.py): truncation at every offset, byte flips at every
+# offset, junk after the root element.  Oracle for "not well-formed": expat driven directly.
+from harness import textpath  # noqa: E402
+from harness.common import concretize, concretize_bs, untraced  # noqa: E402
+
+_TFKIND = PART.get("tkind", "truncate")
+_TFN = {}
+
+
+def _tf_n():
+    if _DOC not in _TFN:
+        with untraced():
+            _TFN[_DOC] = len(textpath.doc_text(_DOC)[1].encode())
+    return _TFN[_DOC]
+
+
+def _text_fault(doc, kind, k, j):
+    import warnings
+
+    cls, _text = textpath.doc_text(doc)
+    data = textpath.fault(doc, kind, k, j)
+    wf = textpath.well_formed(data)
+    out = {"ok": True, "bytes": repr(data[-80:] if kind == "junk" else data[max(0, k - 30) : k + 30]), "well_formed_by_expat": wf}
+    for h in ("lxml", "native"):
+        try:
+            with warnings.catch_warnings():
+                warnings.simplefilter("ignore")
+                res = textpath.parse(data, cls, h)
+            good = isinstance(res[1], cls) and (wf or h != "native")  # the pure-Python handler rejects every document that is not well-formed
+            what = "returned " + repr(res[1])[:200]
+        except ALLOWED as e:
+            good, what = True, "raised " + type(e).__name__
+        except Exception as e:  # noqa: BLE001
+            good, what = False, "leaked %s: %s" % (type(e).__name__, str(e)[:120])
+        out[h] = what
+        out["ok"] = out["ok"] and good
+    return out
+
+
+def text_fault(k: int, j: int) -> bool:
+    """
+    pre: 0 <= k < (_tf_n() if _TFKIND != "junk" else 1)
+    pre: 0 <= j < (1 if _TFKIND == "truncate" else len(textpath.FLIPS) if _TFKIND == "flip" else len(textpath.JUNK))
+    post: _
+    """
+    ck = concretize_bs(k, _tf_n() if _TFKIND != "junk" else 1)
+    cj = concretize(j, 1 if _TFKIND == "truncate" else len(textpath.FLIPS) if _TFKIND == "flip" else len(textpath.JUNK))
+    with untraced():
+        return result(_text_fault(_DOC, _TFKIND, ck, cj)["ok"])
+
+
 PRE = {}
-EXPLAIN = {"fault": explain_fault}
+EXPLAIN = {"fault": explain_fault, "text_fault": lambda k, j: _text_fault(_DOC, _TFKIND, k, j)}
 KINDS = ["delete", "duplicate", "retag", "swap", "inject", "text", "attr", "delattr", "addattr", "xsitype", "xsinil", "qname"]
 
 
@@ -292,6 +346,9 @@ def plan(tier):
             if not quick:
                 jobs.append(Job("fault", {"doc": doc, "kind": kind, "handler": ("lxml", "native")[(d_i + k_i) % 2], "strict": int((d_i + k_i) % 4 == 3), "fcw": 1 - (k_i // 2) % 2, "tlen": tlen}, 240, 30))
     jobs.append(Job("syntax_error", {"doc": "basic"}, 60, 10))
+    for doc in (["basic", "holder", "qnames", "mixed", "wild", "anytyped"] if quick else sorted(mutate.DOCS)):
+        for tkind in ("truncate", "junk", "flip"):
+            jobs.append(Job("text_fault", {"doc": doc, "tkind": tkind}, 600, 30, note="real lxml / expat front ends; offset symbolic"))
     for d_i, doc in enumerate(["basic", "parenta", "holder", "lists", "compound", "wrapped", "nillable", "enums", "unionmodels", "wild", "wlderived"] if quick else list(mutate.DOCS)):
         jobs.append(Job("dict_fault", {"doc": doc, "strict": 1, "fcw": d_i % 2, "tlen": tlen}, 240, 30))
         if not quick or d_i % 2 == 0:
